@@ -39,7 +39,9 @@ TRUSTED = [
     "qiskit QuantumCircuit.control(k, ctrl_state=str): last character of the string = first control qubit; circuit.inverse(); "
     "Operator",
     "float: `!= 0` and np.allclose(rtol 1e-5, atol 1e-8) are modelled as exact (in)equality in the theorems and as the same "
-    "tests on IEEE doubles in the driver; generated inputs keep operator entries either equal to 1e-10 or 1e-4 apart",
+    "tests on IEEE doubles in the driver; generated inputs keep operator entries off the band (0.5x, 2x) of the allclose "
+    "threshold; qiskit's UCGate._simplify merges entries within np.allclose as well, so inside the threshold the UCGate "
+    "specification (and the prepared state, both classes) holds to ~1e-5 only (probe `*:col:allclose-merge:*`)",
 ]
 ASSUMPTIONS = ["exact complex arithmetic in the theorems; implementation compared to 1e-9 (tie) and 1e-7 (oracle)"]
 RULE = ("tie: (class, preserve, n, t, vector) whose per-level intermediates were diffed against the Lean model; oracle: "
@@ -297,19 +299,36 @@ def impl_lines(cls_name, preserve, levels):
 
 
 def in_band(levels):
-    """True if two multiplexer entries of some level differ by an amount inside the band where
-    np.allclose is not clearly decided (1e-10 .. 1e-4)."""
+    """True if for two multiplexer entries of some level np.allclose is not clearly decided: the largest entrywise
+    ratio |a - b| / (1e-8 + 1e-5 |b|) lies in (0.5, 2) (allclose holds iff that ratio is <= 1)."""
     for lv in levels:
         m = lv["mux"]
         for i in range(len(m)):
-            for j in range(i):
-                d = float(np.abs(m[i] - m[j]).max())
-                if 1e-10 < d < 1e-4:
+            for j in range(len(m)):
+                if i == j:
+                    continue
+                ratio = float((np.abs(m[i] - m[j]) / (1e-8 + 1e-5 * np.abs(m[j]))).max())
+                if 0.5 < ratio < 2.0:
                     return True
     return False
 
 
-def check_ucgate_spec(ctx, lv):
+def merge_band(levels):
+    """True if two DIFFERENT multiplexer entries of some level lie within (twice) the np.allclose threshold of each
+    other: ucge._repetition_search / qiskit's UCGate._simplify then (may) merge them and the prepared state is
+    legitimately off by up to ~1e-5 (known finding K-C12-1); the oracle tolerance is 1e-4 there."""
+    for lv in levels:
+        m = lv["mux"]
+        for i in range(len(m)):
+            for j in range(len(m)):
+                if i != j:
+                    diff = np.abs(m[i] - m[j])
+                    if float(diff.max()) > 1e-10 and float((diff / (1e-8 + 1e-5 * np.abs(m[j]))).max()) < 2.0:
+                        return True
+    return False
+
+
+def check_ucgate_spec(ctx, lv, tol=1e-9):
     """K4 assumption: Diag(d) * UCGate-circuit = block-diagonal multiplexer (target least significant)."""
     from qiskit import QuantumCircuit
     from qiskit.quantum_info import Operator
@@ -330,7 +349,7 @@ def check_ucgate_spec(ctx, lv):
     err = float(np.abs(np.diag(lv["diag"]) @ u - ideal).max())
     unit = float(np.abs(np.abs(lv["diag"]) - 1).max())
     ctx.assumption_checks += 1
-    if err > 1e-9 or unit > 1e-9:
+    if err > tol or unit > 1e-9:
         ctx.fail("assumption:ucgate-diagonal-spec", f"|Diag(d) U - mux| = {err:.2e}, ||d|-1| = {unit:.2e}", kind="assumption")
 
 
@@ -342,7 +361,7 @@ def vec_payload(v):
     return [[float(np.real(a)), float(np.imag(a))] for a in v]
 
 
-def one_case(ctx, cls_name, n, t, preserve, fam, v, info=None, do_tie=True, do_oracle=True, key=None):
+def one_case(ctx, cls_name, n, t, preserve, fam, v, info=None, do_tie=True, do_oracle=True, key=None, tol=1e-7):
     from qiskit.quantum_info import Operator
     N = 2 ** n
     h = zlib.crc32(np.asarray(v, dtype=complex).tobytes()) & 0xffffff
@@ -364,12 +383,15 @@ def one_case(ctx, cls_name, n, t, preserve, fam, v, info=None, do_tie=True, do_o
         ctx.fail(f"{cls_name}:exception:{type(e).__name__}:{fam}:n={n}:pres={int(preserve)}",
                  f"construction raised {e!r}", rep)
         return
+    if tol <= 1e-7 and merge_band(levels):
+        tol = 1e-4
+        ctx.count("oracle tolerance 1e-4: entries inside the allclose threshold")
     if do_tie and not (cls_name == "ucge" and preserve):
         if cls_name == "ucge" and in_band(levels):
             ctx.count("tie skipped: entries inside the allclose band")
         else:
             for lv in levels:
-                check_ucgate_spec(ctx, lv)
+                check_ucgate_spec(ctx, lv, tol=1e-9 if tol <= 1e-7 else tol)
                 ctx.count("kind:" + "+".join(sorted(set(lv["kinds"]))))
                 if cls_name == "ucge" and lv["dc"]:
                     ctx.count("ucge dont_carry levels")
@@ -382,7 +404,7 @@ def one_case(ctx, cls_name, n, t, preserve, fam, v, info=None, do_tie=True, do_o
         return
     u = Operator(g.definition).data
     err = float(np.abs(u[:, t] - v).max())
-    if err > 1e-7 and cls_name == "ucge" and preserve:
+    if err > tol and cls_name == "ucge" and preserve:
         ctx.count("ucge+preserve wrong column t (outside the property)")
         if not any("UCGEInitialize with preserve_previous=True prepares a wrong" in s for s in ctx.notes):
             ctx.notes.append("UCGEInitialize with preserve_previous=True prepares a wrong state when _simplify shortened the "
@@ -390,7 +412,7 @@ def one_case(ctx, cls_name, n, t, preserve, fam, v, info=None, do_tie=True, do_o
                              "stated for the plain class), recorded only. Example: n=%d t=%d family=%s err=%.2e"
                              % (n, t, fam, err))
         return
-    if err > 1e-7:
+    if err > tol:
         ctx.fail(key, f"column {t} of Operator(definition) differs from the vector by {err:.3e}", dict(rep, observed_err=err))
         return
     if preserve and cls_name == "ucg" and not np.any(v[:t]):
@@ -406,6 +428,152 @@ def one_case(ctx, cls_name, n, t, preserve, fam, v, info=None, do_tie=True, do_o
                 return
         ctx.count("preserve columns checked", t)
     ctx.ok(key, nontrivial=n >= 2, sample={"cls": cls_name, "n": n, "t": t, "preserve": bool(preserve), "family": fam, "err": err})
+    return levels
+
+
+# ------------------------------------------------------------------------------------------------
+# boundary-value cases
+# ------------------------------------------------------------------------------------------------
+
+def _dense(r, N):
+    return r.uniform(0.3, 1.0, size=N) * np.exp(1j * r.uniform(0, 2 * np.pi, size=N))
+
+
+def child_boundary_cases(ctx, r):
+    """ucg.py:179 `parent != 0`, :182 `amp_ket0 != 0`, :203/:224 `target == '0'`, :116 `mux[r_gate]`: at every
+    tree level L the |0> child, the |1> child or both children of a sibling pair are exactly 0 / 1e-12 / 1e-3
+    relative to the rest; the pair is the one pulled out by preserve_previous (index r_gate) or another one;
+    t = 0, 2^(n-1), 2^n - 1 give both values of the target bit at every level.  Child c of tree level L is the
+    block [c*B, (c+1)*B) of the vector, B = 2^(n-L)."""
+    for n in (1, 2, 3, 4):
+        N = 2 ** n
+        ts = sorted({0, N // 2, N - 1}) if n <= 3 else [0, N - 1]
+        eps_list = [("0", 0.0), ("1e-12", 1e-12), ("1e-3", 1e-3)] if n <= 3 else [("0", 0.0)]
+        for t in ts:
+            for L in range(1, n + 1):
+                npairs, B = 2 ** (L - 1), 2 ** (n - L)
+                rg = t >> (n - L + 1)
+                other = 0 if rg != 0 else npairs - 1
+                pairs = [("rgate", rg)] + ([("other", other)] if other != rg else [])
+                for pname, k in pairs:
+                    for which in ("ket0", "ket1", "both"):
+                        for tag, eps in eps_list:
+                            if which == "both" and npairs == 1:
+                                continue
+                            v = _dense(r, N)
+                            lo = (2 * k + (1 if which == "ket1" else 0)) * B
+                            hi = (2 * k + (1 if which == "ket0" else 2)) * B
+                            v[lo:hi] *= eps
+                            yield n, t, L, v, f"bnd-child:L={L}:{pname}:{which}:{tag}", f"child:{which}:{tag}:{pname}"
+
+
+# normalised pairs (cos th, sin th e^{i ph}); distinct letters are far apart (entries differ by > 0.05)
+LETTERS = {"A": (0.7853981633974483, 0.0), "B": (0.9, -0.7), "C": (0.35, 1.9), "D": (1.2, 2.6), "E": (0.55, -2.2),
+           "F": (1.05, 0.8), "G": (0.2, -1.3), "H": (1.4, 1.1)}
+# second letter `a` = A shifted by delta in theta: entrywise |a - A| = 0.707 delta against the allclose threshold
+# 1e-8 + 1e-5 * 0.707 = 7.08e-6
+NEAR = {"a9": 1e-9, "a6": 3e-6, "a5": 3e-5}
+PATTERNS = {
+    2: ["AA", "AB", "A a9", "A a6", "A a5"],
+    3: ["AAAA", "AABB", "ABAB", "AABC", "ABAC", "ABCD", "ABCA", "A a6 B B", "A a5 B B", "A B a6 B", "A B a5 B"],
+    4: ["AAAAAAAA", "ABABABAB", "AABBAABB", "AAAABBBB", "ABCDABCD", "AABBCCDD", "AABBAABC", "ABCDABCE", "ABCABCDE",
+        "ABCAEFGH", "ABCDEFGH"],
+}
+
+
+def pattern_vector(r, pat):
+    toks = pat.split() if " " in pat else list(pat)
+    v = []
+    for tok in toks:
+        th, ph = LETTERS["A"] if tok in NEAR else LETTERS[tok]
+        th += NEAR.get(tok, 0.0)
+        w = r.uniform(0.5, 1.0)
+        v += [w * np.cos(th), w * np.sin(th) * np.exp(1j * ph)]
+    return np.array(v, dtype=complex)
+
+
+def ucge_pattern_cases(ctx, r):
+    """ucge.py:39 `range(1, len(mux)//2 + 1)`, :42 `log2(d).is_integer() and allclose(mux[i], mux[0])` (each conjunct
+    alone: ABCABCDE has mux[3] == mux[0] with d = 3; ABCD.. has d a power of two and different entries), :28-33
+    verification failing on the first / a later element / the last repetition (restore of mux_cpy at :51),
+    :53 `repetitions == 0`, :120 `len(mux) > 1`, ucg.py:104 `len(mux) != 1` after simplification (AAAA..), and
+    np.allclose itself (entries 1e-9 / 0.4 / 4 thresholds apart) - on the first level's multiplexer of 2, 4, 8 entries."""
+    for n, pats in PATTERNS.items():
+        for pat in pats:
+            for t in sorted({0, 1, 2 ** n - 1}):
+                yield n, t, pattern_vector(r, pat), "bnd-mux:" + pat.replace(" ", "_"), pat
+
+
+def allclose_merge_probe(ctx):
+    """FINDING (precision): two sibling pairs whose 2x2 operators are within np.allclose (rtol 1e-5, atol 1e-8) of each
+    other are merged - by ucge._repetition_search for UCGEInitialize and by qiskit's UCGate._simplify for the plain
+    UCGInitialize as well - so the prepared state is off by up to ~1e-5, far above float noise.  Fixed input:
+    v = (cos a, sin a, cos(a+d), sin(a+d))/sqrt 2, a = pi/4, d = 3e-6."""
+    from qiskit.quantum_info import Statevector
+    a, d = np.pi / 4, 3e-6
+    v = np.array([np.cos(a), np.sin(a), np.cos(a + d), np.sin(a + d)], dtype=complex) / np.sqrt(2)
+    for cls_name in ("ucg", "ucge"):
+        key = f"{cls_name}:col:allclose-merge:n=2:t=0:delta=3e-6"
+        rep = {"call": cls_name, "n": 2, "t": 0, "preserve": False, "family": "allclose-merge", "vector": vec_payload(v)}
+        try:
+            sv = Statevector(get_class(cls_name)(v).definition).data
+        except Exception as e:
+            ctx.fail(key + ":raises", f"{type(e).__name__}: {e}", rep)
+            continue
+        err = float(np.abs(sv - v).max())
+        ctx.count("boundary:allclose:finding-probe")
+        if err > 1e-7:
+            ctx.fail(key, f"prepared state differs from the vector by {err:.3e}: sibling pairs 3e-6 apart are merged by "
+                          f"np.allclose ({'ucge._repetition_search' if cls_name == 'ucge' else 'qiskit UCGate._simplify'})",
+                     dict(rep, observed_err=err))
+        else:
+            ctx.ok(key, sample={"cls": cls_name, "err": err})
+
+
+def boundary_run(ctx, r):
+    allclose_merge_probe(ctx)
+    ctx.notes.append("boundary cases: children of a sibling pair are exactly 0, 1e-12 or 1e-3 relative to the rest (the code's "
+                     "tests are exact `!= 0`; (0, 1e-12) is not sampled); UCGE multiplexer entries are equal, 1e-9 apart, or "
+                     "0.4x / 4x the np.allclose threshold apart - the band (0.5x, 2x) is excluded from the tie; where "
+                     "allclose merges entries 3e-6 apart the prepared state is legitimately ~1e-6 off, the oracle tolerance "
+                     "is 1e-4 there")
+    for n, t, L, v, fam, counter in child_boundary_cases(ctx, r):
+        v = v / np.linalg.norm(v)
+        for cls_name, preserve in (("ucg", False), ("ucge", False), ("ucg", True)):
+            w = v
+            if preserve:
+                # preserve_previous is stated for vectors supported on indices >= t
+                w = v.copy()
+                w[:t] = 0
+                if not np.any(w):
+                    continue
+                w = w / np.linalg.norm(w)
+            lv = one_case(ctx, cls_name, n, t, preserve, fam, w)
+            if lv is not None:
+                ctx.count(f"boundary:{counter}")
+                bit = lv[n - L]["bit"]
+                ctx.count(f"boundary:child:level={'first' if L == n else 'last' if L == 1 else 'mid'}:bit={bit}")
+                if preserve:
+                    q = lv[n - L]["target"]
+                    ctx.count("boundary:preserve:ctrl_state-" + ("complete(target=n-1)" if q == n - 1 else
+                                                                "padded(target=n-2)" if q == n - 2 else "padded"))
+    for n, t, v, fam, pat in ucge_pattern_cases(ctx, r):
+        v = v / np.linalg.norm(v)
+        # entries 0.4x the allclose threshold apart are merged by ucge._repetition_search AND by qiskit's own
+        # UCGate._simplify (plain class too): the state is then ~1e-6 off by construction
+        # (one_case widens its tolerance to 1e-4 by itself when it sees such entries: merge_band)
+        lv = one_case(ctx, "ucge", n, t, False, fam, v)
+        one_case(ctx, "ucg", n, t, False, fam, v)
+        if lv is not None:
+            dc = lv[0].get("dc", [])
+            ctx.count(f"boundary:ucge-pattern:entries={2 ** (n - 1)}:dont_carry={len(dc)}:kept={len(lv[0].get('kept', []))}")
+            for tok, nm in (("a9", "1e-9(atol)"), ("a6", "0.4x-threshold"), ("a5", "4x-threshold")):
+                if tok in pat:
+                    ctx.count(f"boundary:allclose:{nm}:{'merged' if dc else 'kept-apart'}")
+            if pat in ("ABCABCDE", "ABCAEFGH", "ABCA"):
+                ctx.count("boundary:ucge:equal-entry-at-non-power-of-two-distance")
+            if pat in ("AABC", "AABBAABC", "ABCDABCE", "ABAC"):
+                ctx.count("boundary:ucge:verification-fails-late(restore)")
 
 
 UNREACHED_JUSTIFIED = {}   # after entry_forms() every statement and branch of ucg.py / ucge.py is reached in the quick tier
@@ -525,6 +693,7 @@ def run(ctx, nmax_tie=None, nmax_or=None, per_t=None):
     string_tables(ctx, 6 if ctx.quick else 8)
     ctx.notes.append("generated amplitudes are exactly 0 or of modulus >= 1e-2/sqrt(N); UCGE tie cases whose operator "
                      "entries differ by 1e-10..1e-4 (np.allclose band) are skipped and counted")
+    boundary_run(ctx, r)
     for n in range(1, nmax_or + 1):
         ts = list(range(2 ** n))
         if n >= 5 and ctx.quick:
@@ -538,6 +707,13 @@ def run(ctx, nmax_tie=None, nmax_or=None, per_t=None):
                     if cls_name == "ucge" and preserve and fam not in ("complex", "supp", "product"):
                         continue
                     one_case(ctx, cls_name, n, t, preserve, fam, v, info, do_tie=n <= nmax_tie)
+                    if fam == "complex" and n <= 4:
+                        for nm, val in (("0", 0), ("1", 1), ("2^(n-1)-1", 2 ** (n - 1) - 1), ("2^(n-1)", 2 ** (n - 1)),
+                                        ("2^n-1", 2 ** n - 1)):
+                            if t == val:
+                                ctx.count(f"boundary:target_state={nm}:n={n}")
+                    if cls_name == "ucg" and preserve and fam in ("supp", "supp_t0") and n <= 4:
+                        ctx.count("boundary:preserve:support-starts-at-" + ("t" if fam == "supp" else "t+1"))
 
 
 def search(ctx, hints):
@@ -556,6 +732,9 @@ def replay(ctx, payload):
     v = np.array([complex(a, b) for a, b in rp["vector"]])
     if rp.get("form"):
         entry_case(ctx, rp["call"], rp["n"], rp["t"], rp["preserve"], rp.get("family", "replay"), v, rp["form"], rp.get("wires"))
+        return
+    if rp.get("family") == "allclose-merge":
+        allclose_merge_probe(ctx)
         return
     one_case(ctx, rp["call"], rp["n"], rp["t"], rp["preserve"], rp.get("family", "replay"), v, do_tie=False,
              key=payload.get("key"))
